@@ -91,6 +91,14 @@ def pointset(family, d, n, seed):
     elif family == 'wrapped':
         p = 0.5 + 0.1 * r.normal(size=(n, d))
         p[:, 0] = (0.03 * r.normal(size=n)) % 1.0
+    elif family.startswith('tinyball'):
+        # points uniform in a ball of radius 10^-k hugging corner 0 of the cube: log-volumes far below
+        # -745 (exp underflows) - realistic for narrow posteriors in many dimensions
+        scale = 10.0 ** (-int(family[8:]))
+        g = r.normal(size=(n, d))
+        g /= np.linalg.norm(g, axis=1)[:, None]
+        g *= r.uniform(size=n)[:, None] ** (1.0 / d)
+        return (g + 1.5) * scale
     elif family == 'minimal':
         p = 0.5 + 0.1 * r.normal(size=(d + 1, d))
     else:
